@@ -24,6 +24,7 @@ ROOT = {"num": 7, "color": "c", "a": {"id": "i1", "a": 3}, "hello": "h"}
 
 DOC_A = "query Q($s: Boolean = false) { num @skip(if: $s) a { ...AF } } fragment AF on A { id a @include(if: $s) }"
 DOC_2 = "query One { num } query Two { ...RF a { a } } fragment RF on Query { color }"
+DOC_M = "query($s: Boolean = false) { x: num @skip(if: false) ...MF color } fragment MF on Query { x: num @skip(if: $s) }"
 ALPHABET = [
     ("A", DOC_A, None, {}, {}),
     ("B-failing", "{ ...RF hello(n: 1) } fragment RF on Query { color }", None, None, {("hello",): "raise"}),
@@ -41,6 +42,9 @@ SHARED = [
     ALPHABET[1],
     ("shared-exception-at-hello", "{ color hello(n: 1) }", None, None, {("hello",): "raise_shared"}),
     ("shared-exception-at-a.a", "{ a { a } color }", None, None, {("a", "a"): "raise_shared"}),
+    # one response key built from two field nodes that both carry directives (the second one variable-driven)
+    ("merged-directives-s-false", DOC_M, None, {"s": False}, {}),
+    ("merged-directives-s-true", DOC_M, None, {"s": True}, {}),
 ]
 
 
@@ -49,7 +53,9 @@ SHARED = [
 MUT_SDL = """
 input P { a: Int = 1 l: [Int] = [1, 2] q: P }
 scalar Tag
-type Query { f(p: P = {a: 5, l: [7]}, xs: [Int] = [1]): String e(t: Tag, n: Int, p: P): String }
+input P2 { t: Tag n: Int = 3 }
+input P3 { t: String n: Int = 4 inner: P2 }
+type Query { f(p: P = {a: 5, l: [7]}, xs: [Int] = [1]): String e(t: Tag, n: Int, p: P, p2: P2, p3: P3, ps: [P2]): String }
 """
 # a fourth alphabet: the caller passes ONE variables object to every request of the history (undeclared extras are ignored, so this
 # is legal); coerced values and defaults of one request must not be written into it
@@ -59,8 +65,13 @@ VARS_ALPHABET = [
     ("default-2", "query($n: Int = 2, $p: P = {a: 3}) { e(n: $n, p: $p) }"),
     ("no-default", "query($n: Int, $p: P) { e(n: $n, p: $p) }"),
     ("input-object", "query($q: P) { e(p: $q) }"),
+    # one raw object read as two different input types (custom scalar vs String field, different defaults), also nested / in a list
+    ("object-as-P2", "query($r: P2) { e(p2: $r) }"),
+    ("object-as-P3", "query($r: P3) { e(p3: $r) }"),
+    ("object-in-list-as-P2", "query($rs: [P2]) { e(ps: $rs) }"),
+    ("nested-object-as-P3", "query($w: P3) { e(p3: $w) }"),
 ]
-SHARED_VARS = {"t": "tg", "q": {"l": [5]}}
+SHARED_VARS = {"t": "tg", "q": {"l": [5]}, "r": {"t": "tg"}, "rs": [{"t": "a"}, {"t": "b", "n": 1}], "w": {"t": "x", "inner": {"t": "y"}}}
 MUT_ALPHABET = [
     ("sdl-default", "{ f }", None),
     ("literal-object", "{ f(p: {a: 2}) }", None),
@@ -183,7 +194,7 @@ def make_mut_engine(config):
     return harness.run(create_engine(MUT_SDL, schema_name=name, **kw)), name
 
 
-def run_shared_variables(tier):
+def run_shared_variables(tier, first=None):
     out = {"counts": {"histories": 0, "requests": 0, "nontrivial": 0}, "tables": {}, "sets": {}, "samples": [], "violations": [],
            "machinery": []}
     ref = {}
@@ -195,6 +206,8 @@ def run_shared_variables(tier):
             out["machinery"].append("shared-variables request %s does not run: %s" % (label, ref[label][:300]))
     depth = 3 if tier == "quick" else 4
     for hist in itertools.product(range(len(VARS_ALPHABET)), repeat=depth):
+        if first is not None and hist[0] != first:
+            continue
         for config in ("default", "disabled"):
             eng, name = make_mut_engine(config)
             variables = json.loads(json.dumps(SHARED_VARS))  # one object for the whole history
@@ -215,7 +228,8 @@ def run_shared_variables(tier):
                     break
             out["counts"]["histories"] += 1
             drop(name)
-    out["samples"].append({"one_variables_object_alphabet": [l[0] for l in VARS_ALPHABET], "length": depth})
+    if not first:
+        out["samples"].append({"one_variables_object_alphabet": [l[0] for l in VARS_ALPHABET], "length": depth})
     return out
 
 
@@ -343,7 +357,7 @@ def reference():
 
 def shards(tier, seed):
     n = len(ALPHABET)
-    return [(a, b, tier) for a in range(n) for b in range(n)] + [("shared", tier), ("variables", tier)] + [("auth", tier, k) for k in range(len(AUTH_ALPHABET))] + [("mutating", tier, k) for k in range(len(MUT_ALPHABET))]
+    return [(a, b, tier) for a in range(n) for b in range(n)] + [("shared", tier)] + [("variables", tier, k) for k in range(len(VARS_ALPHABET))] + [("auth", tier, k) for k in range(len(AUTH_ALPHABET))] + [("mutating", tier, k) for k in range(len(MUT_ALPHABET))]
 
 
 def run_shard(item):
@@ -352,7 +366,7 @@ def run_shard(item):
     if item[0] == "auth":
         return run_auth(item[1], item[2])
     if item[0] == "variables":
-        return run_shared_variables(item[1])
+        return run_shared_variables(item[1], item[2])
     if item[0] == "mutating":
         return run_mutating(item[1], item[2])
     a, b, tier = item
